@@ -137,6 +137,18 @@ def run_families(res, pid, tier, seed, wd, binary):
                 continue
             r["_family"] = name
             recs.append(r)
+        mh = re.search(r"HANG-CASE (.*?) ESAC-GNAH", out, re.S)
+        if rc != 0 and mh:
+            # one case did not finish: operations stuck inside the Broadcaster (e.g. on its mutex)
+            try:
+                hc = json.loads(mh.group(1))
+            except Exception:
+                hc = dict(raw=mh.group(1)[:2000])
+            res.violation("bcast-deadlock:" + name,
+                          "implementation violates C19: these client operations never finish (an operation is stuck inside the Broadcaster, e.g. on its mutex): %s" % json.dumps(hc.get("progs"))[:300],
+                          dict(kind="bcast-deadlock", family=name, case=hc))
+            stats[name] = len(rs)
+            break
         if rc != 0:
             # the child died: a panic outside the client threads, a stuck goroutine or a timeout
             tail = out[-3000:]
